@@ -104,3 +104,19 @@ def approx_eq(a: Fraction, b: Fraction, abs_tol: Fraction, rel_terms: Fraction =
 TOL_10DP = Fraction(1, 10 ** 9)        # figures that pass through round_dp(10)
 TOL_FINE = Fraction(1, 10 ** 15)       # everything else (plus 1e-18 * |terms|)
 DUST = Fraction(1, 10 ** 15)           # leg quantities below this are division residue
+
+
+def cap_viols(viols, per_sig=6, total=240):
+    """What a shard hands back: at most `per_sig` violations per distinct signature (never 'the first N of
+    everything': a frequent known-finding signature must not crowd out a rare unknown one)."""
+    seen = {}
+    out = []
+    for v in viols:
+        s = v.get("signature") or v.get("clause") or "?"
+        n = seen.get(s, 0)
+        if n < per_sig:
+            seen[s] = n + 1
+            out.append(v)
+            if len(out) >= total:
+                break
+    return out
